@@ -169,4 +169,47 @@ theorem sugar_string_eval (c : Caller) (env : Env) (cs : List Nat) :
   rw [this]
   simp [mkColl, V.mkStr, V.mkSeq, Function.comp_def]
 
+/-- a relation literal is the set of its rows -/
+theorem rel_is_set_eval (c : Caller) (env : Env) (rows : Expr) :
+    evalE c (.coll .rel rows) env = evalE c (.coll .set rows) env := by
+  simp [evalE, mkColl]
+
+/-- `(nm: v, @: k)` is `(@: k, nm: v)`: the order in which a tuple's attributes are written is irrelevant -/
+theorem tuple_attr_order_eval (c : Caller) (env : Env) (nm : String) (h : "@" < nm) (k v : Expr) (r : Val)
+    (hr : evalE c (tupleOf nm k v) env = .ok r) :
+    evalE c (.coll .tup (.cons nm .nil v (.cons "@" .nil k .nil))) env = .ok r := by
+  simp only [tupleOf, evalE, evalItems, isNil, if_true, Res.bind_ok] at hr ⊢
+  cases hk : evalE c k env with
+  | ok a =>
+    rw [hk] at hr
+    cases ha : asData a with
+    | ok kv =>
+      simp only [ha, Res.bind_ok] at hr
+      cases hv : evalE c v env with
+      | ok b =>
+        rw [hv] at hr
+        cases hb : asData b with
+        | ok vv =>
+          simp only [hb, Res.bind_ok, mkColl] at hr ⊢
+          simp only [ha, Res.bind_ok]
+          simpa [mkTup_at nm h] using hr
+        | _ => simp [hb] at hr
+      | _ => rw [hv] at hr; simp at hr
+    | _ => simp [ha] at hr
+  | _ => rw [hk] at hr; simp at hr
+
+/-- the denotation of a relation literal does not depend on the order of its heading:
+`{|@, nm| (k, v), …}` = `{|nm, @| (v, k), …}` -/
+theorem rel_heading_order_den (nm : String) (h : "@" < nm) (rows : List (Lit × Lit)) :
+    Lit.den (.rel ["@", nm] (rows.map fun r => [r.1, r.2])) = Lit.den (.rel [nm, "@"] (rows.map fun r => [r.2, r.1])) := by
+  have : ∀ rows : List (Lit × Lit), Lit.denRows ["@", nm] (rows.map fun r => [r.1, r.2]) =
+      Lit.denRows [nm, "@"] (rows.map fun r => [r.2, r.1]) := by
+    intro rows
+    induction rows with
+    | nil => rfl
+    | cons r rest ih =>
+      simp only [List.map, Lit.denRows, Lit.denList, Lit.zipAttrs, ih]
+      rw [mkTup_at nm h]
+  simp only [Lit.den, this]
+
 end Arrai.C08
